@@ -163,6 +163,7 @@ struct CalM {
     cf::Cal t;                 // name, type, dims, F, z0, props, data[k].f; data[k].blocks valid iff exact
     bool exact = false;        // the blocks are the exact in-memory error terms
     bool conditioned = false;  // terms near the identity calibration: apply is well-conditioned
+    std::vector<cd> e00, er, e11;   // solved 1x1 calibrations: the error box M = e00 + er G / (1 - e11 G) it was solved from
 };
 
 struct H {
@@ -286,7 +287,8 @@ struct H {
         int ci = 0;
         for (auto &rc : rd.cals) { CalM m; m.t = cf::to_e12(rc); m.exact = true; cals[ci++] = m; }
     }
-    void start_from_file() {
+    // returns false when the history ends here (a deliberately invalid file was refused)
+    bool start_from_file() {
         cf::File f;
         int ver = c.weighted({5, 2, 2});
         bool legacy2 = ver == 2;
@@ -311,6 +313,35 @@ struct H {
             w.ffmt.precision = (int)c.range(pmin, 17);
         }
         w.yaml_header = !c.chance(1, 4); w.all_flow = c.chance(1, 3); w.end_marker = c.chance(1, 3);
+        // One history in twelve: the same file made invalid in one place -- a block missing from one
+        // frequency entry (the first or a later one), or frequencies not ascending.  vnacal(3): EBADMSG,
+        // "syntax error or otherwise invalid"; nothing of it may load (a later entry must not silently
+        // inherit the block of the entry before it).
+        if (k >= 1 && c.chance(1, 12)) {
+            int ci = (int)c.draw(k);
+            cf::Cal &bc = f.cals[ci];
+            int how = bc.F >= 2 ? (int)c.draw(3) : 0;
+            if (how == 0) {
+                int e = (int)c.draw(bc.F); size_t b = c.draw(bc.data[e].blocks.size());
+                c.note("vnacal_load(harness-written file '%s', calibration %d (%s %dx%d F=%d) WITHOUT block '%s' in frequency entry %d)  [must be refused]", f.version_line.c_str(), ci, bc.type.c_str(), bc.rows, bc.cols, bc.F, bc.data[e].blocks[b].name.c_str(), e);
+                if (bc.data[e].blocks[b].v.empty()) return start_created(), true;     // an 'el' of a 1x1 has no terms: nothing to miss
+                bc.data[e].blocks.erase(bc.data[e].blocks.begin() + b);
+                c.label(e == 0 ? "invalid-file:block-missing-in-first-entry" : "invalid-file:block-missing-in-later-entry");
+            } else {
+                int e = (int)c.range(1, bc.F - 1);
+                if (how == 1) std::swap(bc.data[e - 1].f, bc.data[e].f); else bc.data[e].f = bc.data[e - 1].f;
+                c.note("vnacal_load(harness-written file '%s', calibration %d with f[%d] %s f[%d])  [must be refused]", f.version_line.c_str(), ci, e, how == 1 ? "<" : "==", e - 1);
+                c.label(e == 1 ? "invalid-file:f[1]<=f[0]" : "invalid-file:not-ascending-later");
+                w.ffmt.precision = 17; w.ffmt.hex = false;
+            }
+            std::string text = cf::write(f, w);
+            TmpFile tf; tf.put(text);
+            log.clear();
+            CalH bad; bad.v = vnacal_load(tf.path.c_str(), errlog_fn, &log);
+            PBT_CHECK(c, bad.v == nullptr, "C07.invalid_file_accepted", "vnacal_load accepts an invalid file (%s):\n%s", how == 0 ? "a required block is missing from a frequency entry" : "frequencies are not strictly ascending", ascii_only(text.substr(0, 2200)).c_str());
+            PBT_CHECK(c, log.n_total() > 0, "C07.invalid_file_silent", "vnacal_load refused the file without calling the error function");
+            return false;
+        }
         std::string text = cf::write(f, w);
         c.note("vnacal_load(harness-written file: '%s', %d calibrations%s, numbers %s, %s)", f.version_line.c_str(), k, f.has_props ? ", global properties" : "",
                nf == 0 ? "hex" : nf == 1 ? "17 digits" : ("f " + std::to_string(w.ffmt.precision) + " / data " + std::to_string(w.dfmt.precision) + " digits").c_str(), w.all_flow ? "flow" : "block rows");
@@ -328,6 +359,7 @@ struct H {
             }
         }
         for (auto &kv : cals) { if (kv.second.t.rows != kv.second.t.cols) c.label("rectangular"); c.label("type:" + kv.second.t.type); }
+        return true;
     }
 
     // ------------------------------------------------------------ comparisons
@@ -477,6 +509,28 @@ struct H {
         }
     }
 
+    // A 1x1 calibration solved from short/open/match through the error box (e00, er, e11): the blocks in the
+    // text must MEAN what vnacal_layout.h says they mean ("From E terms", Et = 1), up to the free scale of T / U:
+    //   Ts : Ti : Tx : Tm = er - e00 e11 : e00 : -e11 : 1      Um : Ui : Ux : Us = 1 : -e00 : e11 : er - e11 e00
+    //   E12: el = e00, er = er, em = e11.   Independent of vnacal_apply and of the loader.
+    void term_meaning(const cf::Cal &t, const CalM &m) {
+        if (m.e00.empty()) return;
+        for (int k = 0; k < m.t.F; k++) {
+            auto blk = [&](const char *nm) -> cd { for (auto &b : t.data[k].blocks) if (b.name == nm && b.v.size() == 1) return b.v[0]; c.fail("C07.term_meaning", "save #%d calibration %s: block %s missing or not 1 term", saves, qe(m.t.name).c_str(), nm); };
+            cd want[3], got[3]; const char *names[3];
+            cd d = m.er[k] - m.e00[k] * m.e11[k];
+            if (cf::type_is_t(m.t.type)) { cd tm = blk("tm"); got[0] = blk("ts") / tm; got[1] = blk("ti") / tm; got[2] = blk("tx") / tm; want[0] = d; want[1] = m.e00[k]; want[2] = -m.e11[k]; names[0] = "ts/tm"; names[1] = "ti/tm"; names[2] = "tx/tm"; }
+            else if (m.t.type == "E12") { got[0] = blk("el"); got[1] = blk("er"); got[2] = blk("em"); want[0] = m.e00[k]; want[1] = m.er[k]; want[2] = m.e11[k]; names[0] = "el"; names[1] = "er"; names[2] = "em"; }
+            else { cd um = blk("um"); got[0] = blk("ui") / um; got[1] = blk("ux") / um; got[2] = blk("us") / um; want[0] = -m.e00[k]; want[1] = m.e11[k]; want[2] = d; names[0] = "ui/um"; names[1] = "ux/um"; names[2] = "us/um"; }
+            for (int q = 0; q < 3; q++) {
+                double e = std::abs(got[q] - want[q]);
+                c.track_max("term_meaning_err/1e-9", e / 1e-9);
+                PBT_CHECK(c, e <= 1e-9, "C07.term_meaning", "save #%d calibration %s (%s, solved from a known error box) f#%d: %s = %.12g%+.12gj in the file, vnacal_layout.h gives %.12g%+.12gj", saves, qe(m.t.name).c_str(), m.t.type.c_str(), k, names[q], got[q].real(), got[q].imag(), want[q].real(), want[q].imag());
+            }
+        }
+        c.label("solved-terms-meaning-checked");
+    }
+
     std::string do_save(vnacal_t *v, ErrLog &lg, const char *what) {
         TmpFile tf;
         lg.clear();
@@ -542,6 +596,8 @@ struct H {
           text_vs_model(FR, VNACAL_MAX_PRECISION, VNACAL_MAX_PRECISION, "MAX precision");
           // terms of calibrations the model does not know exactly (solved ones) are now known; T1 must be within the bound of them
           size_t i = 0;
+          for (auto &kv : cals) { if (!kv.second.exact) term_meaning(FR.cals[i], kv.second); i++; }
+          i = 0;
           for (auto &kv : cals) { if (!kv.second.exact) { NodeP keep = kv.second.t.props; bool hp = kv.second.t.has_props; std::string nm = kv.second.t.name; kv.second.t = FR.cals[i]; kv.second.t.props = keep; kv.second.t.has_props = hp; kv.second.t.name = nm; kv.second.exact = true; } i++; }
           pf = opf; pd = opd;
           text_vs_model(F1, pfe, pde, "history precisions, against the MAX image");
@@ -651,6 +707,7 @@ struct H {
         CalM m; m.exact = false; m.conditioned = true;
         m.t.name = name; m.t.type = tn[ti]; m.t.rows = m.t.cols = 1; m.t.F = F; m.t.z0 = z0;
         for (int k = 0; k < F; k++) { cf::Freq fr; fr.f = f[k]; m.t.data.push_back(fr); }
+        m.e00 = e00; m.er = er; m.e11 = e11;
         cals[ci] = m;
         c.label("solved-calibration");
     }
@@ -701,7 +758,7 @@ struct H {
     void run() {
         int st = c.weighted({2, 8, 1});
         if (st == 0) { start_created(); c.label("start:create"); }
-        else if (st == 1) start_from_file();
+        else if (st == 1) { if (!start_from_file()) return; }
         else { c.note("vnacal_load(compat-V2.vnacal of the library's test suite)"); c.label("start:compat-V2.vnacal"); start_from_text(COMPAT_V2, "compat-V2.vnacal"); for (auto &kv : cals) kv.second.conditioned = true; }
         size_t mean = (size_t)(2 + c.size / 12);
         for (size_t n = 0; (c.mark(), c.more(n, mean, 40)); n++) {
